@@ -292,6 +292,15 @@ class ObjRunner:
                     return getattr(recv, attr)(*args, **kw)
                 except (ValueError, TypeError) as exc:
                     raise Flow("raise", f"{type(exc).__name__}({str(exc)!r})", call) from None
+            if isinstance(recv, (set, frozenset)) and attr in ("add", "discard", "remove", "difference", "union", "intersection", "update", "copy",
+                                                              "issubset", "issuperset", "symmetric_difference", "difference_update", "clear", "pop"):
+                try:
+                    return getattr(recv, attr)(*[set(a) if isinstance(a, (list, tuple)) and attr not in ("add", "discard", "remove") else a for a in args])
+                except (KeyError, TypeError) as exc:
+                    raise Flow("raise", f"{type(exc).__name__}({str(exc)!r})", call) from None
+            if isinstance(recv, str) and attr in ("isalpha", "isalnum", "isupper", "islower", "isnumeric", "isdecimal", "title", "capitalize", "swapcase",
+                                                  "center", "ljust", "rjust", "zfill", "partition", "rpartition", "rsplit", "splitlines", "casefold"):
+                return getattr(recv, attr)(*args)
             if isinstance(recv, str) and attr in ("isspace", "find", "replace", "isdigit", "split", "join", "rstrip", "lstrip", "count", "index", "format"):
                 return getattr(recv, attr)(*args)
             if isinstance(recv, dict) and "__class__" not in recv and attr in ("get", "keys", "values", "items", "setdefault", "pop", "update"):
@@ -307,6 +316,8 @@ class ObjRunner:
                     return self.run_function(f, recv, args, kw)
             if U(call.func.value) in ("super()",) or U(call.func.value).endswith("ContentHandler"):
                 return None
+        if name in ("set", "frozenset", "dict") and name not in interp.env and len(args) <= 1 and not kw:
+            return {"set": set, "frozenset": frozenset, "dict": dict}[name](*args)
         if isinstance(call.func, ast.Name) and self.cinfo(name) is not None:
             return self.new(name, *args, **kw)
         if isinstance(call.func, ast.Name) and isinstance(interp.env.get(name), dict) and interp.env[name].get("__is_class__"):
